@@ -327,7 +327,7 @@ func (e *env) endBridge(n int, tid string) string {
 		return "err:bridge_not_removed"
 	}
 	if tid != "" {
-		e.stores[n].waitAbove(key, before, 1500*time.Millisecond)
+		e.stores[n].waitAbove(key, before, 400*time.Millisecond)
 	}
 	return "ok"
 }
